@@ -93,6 +93,30 @@ def _class(tree, cls: str):
     return cands[0]
 
 
+def _returns_named(fn: ast.FunctionDef) -> ast.FunctionDef:
+    """`return f(..)` -> `ret__c05_<n> = f(..); return ret__c05_<n>` (a copy): the normaliser inlines helper calls that
+    are a statement or the value of an assignment; its alias pass folds the name back into the `return`."""
+    import copy
+    fn = copy.deepcopy(fn)
+    k = 0
+    for node in ast.walk(fn):
+        for field in ("body", "orelse", "finalbody"):
+            block = getattr(node, field, None)
+            if not isinstance(block, list):
+                continue
+            i = 0
+            while i < len(block):
+                st = block[i]
+                if isinstance(st, ast.Return) and isinstance(st.value, ast.Call):
+                    k += 1
+                    nm = f"ret__c05_{k}"
+                    block[i:i + 1] = [ast.Assign([ast.Name(nm, ast.Store())], st.value, lineno=st.lineno, col_offset=0),
+                                      ast.Return(ast.Name(nm, ast.Load()), lineno=st.lineno, col_offset=0)]
+                    i += 1
+                i += 1
+    return ast.fix_missing_locations(fn)
+
+
 def find_func(tree, name: str, cls: str | None = None) -> ast.FunctionDef:
     fn = _find_func_raw(tree, name, cls)
     if _FORM[0] == "raw":
@@ -100,7 +124,7 @@ def find_func(tree, name: str, cls: str | None = None) -> ast.FunctionDef:
     key = (id(tree), name, cls)
     if key not in _NORMAL:
         try:
-            out, log = _normalise(tree, fn, _class(tree, cls) if cls else None, repo=_REPO[0])
+            out, log = _normalise(tree, _returns_named(fn), _class(tree, cls) if cls else None, repo=_REPO[0])
         except TranslationError:
             raise
         except Exception as ex:                                   # the normaliser itself gave up: fail closed
@@ -210,35 +234,86 @@ def _enabled_steps(tree) -> None:
             fail(fn, f"{cls}.enabled_steps must be [step for step in self.parameters if step.enabled]")
 
 
-def _custom_build(tree) -> bool:
-    """-> cf_custom_range_optional"""
-    fn = find_func(tree, "build", "CustomMode")
-    sel = None
-    guards = set()
+def _single_stores(fn) -> dict:
+    """local name -> its value, for the names stored exactly once in `fn` by a plain (annotated) assignment."""
+    seen: dict = {}
     for n in ast.walk(fn):
-        tgt = None
-        if isinstance(n, ast.AnnAssign):
-            tgt = n.target
-        elif isinstance(n, ast.Assign) and len(n.targets) == 1:
-            tgt = n.targets[0]
-        if isinstance(tgt, ast.Name) and tgt.id == "filtered_data":
-            if sel is not None:
-                fail(n, "filtered_data assigned twice")
-            sel = n.value
-        if isinstance(n, ast.If) and n.body and isinstance(n.body[0], ast.Raise):
-            guards.add(_u(n.test))
-    if sel is None:
-        fail(fn, "CustomMode.build: no assignment to filtered_data")
-    for g in ("'_' not in counter", "num_parameters != num_columns"):
-        if g not in guards:
-            fail(fn, f"CustomMode.build: guard `if {g}: raise` not found")
-    loc = "all_data.loc[:, custom_columns]"
-    if _u(sel) == loc:
+        for t in _targets(n):
+            if isinstance(t, ast.Name):
+                plain = isinstance(n, (ast.Assign, ast.AnnAssign)) and \
+                    (n.target is t if isinstance(n, ast.AnnAssign) else (len(n.targets) == 1 and n.targets[0] is t))
+                seen.setdefault(t.id, []).append(n.value if plain else None)
+    return {k: v[0] for k, v in seen.items() if len(v) == 1 and v[0] is not None}
+
+
+def _custom_build(tree) -> bool:
+    """-> cf_custom_range_optional
+
+    Read by role, not by local name: the table handed to the constructor (`custom_data=` of the returned `cls(...)`,
+    followed through locals stored once) is `<T>.loc[:, custom_columns]`, or that only when `custom_columns` is given
+    and <T> itself otherwise, <T> = load_table(custom_file, ...); two raising guards: `'_' not in <C>` and
+    `<C>['_'] != <N>` (either directly or through a local stored once), <N> = len(<..>.columns)."""
+    fn = find_func(tree, "build", "CustomMode")
+    once = _single_stores(fn)
+
+    def follow(e, cheap_only=False):
+        for _ in range(6):
+            if isinstance(e, ast.Name) and e.id in once and \
+                    not (cheap_only and not isinstance(once[e.id], (ast.Name, ast.Subscript, ast.Attribute))):
+                e = once[e.id]
+            else:
+                break
+        return e
+
+    rets = [n for n in ast.walk(fn) if isinstance(n, ast.Return)]
+    if len(rets) != 1 or not (isinstance(rets[0].value, ast.Call) and _u(rets[0].value.func) in ("cls", "CustomMode")):
+        fail(fn, "CustomMode.build: expected one `return cls(parameters=..., custom_data=...)`")
+    kws = {k.arg: k.value for k in rets[0].value.keywords}
+    if rets[0].value.args or set(kws) != {"parameters", "custom_data"} or _u(kws["parameters"]) != "parameters":
+        fail(rets[0], "CustomMode.build: expected cls(parameters=parameters, custom_data=<table>)")
+    sel = follow(kws["custom_data"])
+
+    def is_loc(e):
+        """<T>.loc[:, custom_columns] -> T"""
+        if isinstance(e, ast.Subscript) and isinstance(e.value, ast.Attribute) and e.value.attr == "loc" \
+                and isinstance(e.value.value, ast.Name) and _u(e.slice) == "(:, custom_columns)":
+            return e.value.value.id
+        return None
+
+    def is_table(name):
+        v = once.get(name)
+        return isinstance(v, ast.Call) and _u(v.func) == "load_table" and v.args and _u(v.args[0]) == "custom_file"
+
+    guards = []
+    for n in ast.walk(fn):
+        if isinstance(n, ast.If) and n.body and isinstance(n.body[0], ast.Raise) and isinstance(n.test, ast.Compare) \
+                and len(n.test.ops) == 1:
+            guards.append((type(n.test.ops[0]).__name__, follow(n.test.left, True), follow(n.test.comparators[0], True)))
+    counters = [_u(r) for op, l, r in guards if op == "NotIn" and _u(l) == "'_'" and isinstance(r, ast.Name)]
+    if len(counters) != 1:
+        fail(fn, "CustomMode.build: guard `if '_' not in <counter>: raise` not found")
+    want = f"{counters[0]}['_']"
+    ok = False
+    for op, l, r in guards:
+        if op == "NotEq" and want in (_u(l), _u(r)):
+            other = r if _u(l) == want else l
+            v = once.get(other.id) if isinstance(other, ast.Name) else None
+            if v is not None and _u(v).startswith("len(") and _u(v).endswith(".columns)"):
+                ok = True
+    if not ok:
+        fail(fn, "CustomMode.build: guard `if <number of '_'> != <number of columns>: raise` not found")
+
+    t = is_loc(sel)
+    if t is not None and is_table(t):
         return False
     if isinstance(sel, ast.IfExp):
-        t, a, b = _u(sel.test), _u(sel.body), _u(sel.orelse)
-        if (t, a, b) == ("custom_columns is None", "all_data", loc) or \
-           (t, a, b) == ("custom_columns is not None", loc, "all_data"):
+        tst, a, b = _u(sel.test), sel.body, sel.orelse
+        if tst == "custom_columns is not None":
+            a, b = b, a
+        elif tst != "custom_columns is None":
+            fail(sel, "CustomMode.build: unknown column selection")
+        t = is_loc(b)
+        if t is not None and isinstance(a, ast.Name) and a.id == t and is_table(t):
             return True
     fail(sel, "CustomMode.build: unknown column selection")
 
